@@ -5,7 +5,8 @@ CONSTANTS MaxPre = 2 MaxN = 5
   Posts <- PostsQuick
   FlowKinds = {"bare", "ctx"}
   Drivers = {"run", "fill", "split"}
-  Places = {"alone", "middle"}
+  Places = {"alone", "middle", "afterstop"}
+  StopFlag = "per_branch"
   CopyMode = "per_branch"
   Bufs <- BufAll
 INVARIANT DriversAgree
